@@ -36,11 +36,12 @@ RULE = (
     "inserts a probe before/after every statement and in every argument list, % for iterable expression, def/text filter, decorator (before and "
     "after the call), cached body and supports_caller function, and observers of loop/caller/a fresh def call after "
     "every % try. Case = (program, include_error_handler off/True/False, set of armed probes: none, each single probe, "
-    "each pair for programs of weight<=WP, and for F1 programs each single probe raising the BaseException-only kind); canonical = printed files + armed set; cases whose armed probes do not all "
+    "each pair for programs of weight<=WP, and for programs of weight<=WB1, or <=WB2 with a % try or <%include>, each single probe raising the BaseException-only kind); canonical = printed files + armed set; cases whose armed probes do not all "
     "fire and include_error_handler cases that do not differ from the off case are dropped as duplicates of a smaller "
     "case. Each case is run under every handler that applies: none (render_unicode), caller of render_context, "
     "error_handler returning True, and for programs of weight<=WF error_handler returning False and format_exceptions "
-    "(render_unicode, render() to bytes with output_encoding, render_context with the caller's Context). "
+    "(render_unicode at every crash point; render() to bytes with output_encoding and render_context with the caller's "
+    "Context at one crash point per distinct construct path and probe kind). "
     "Non-trivial = a probe fires inside >=1 stateful construct and something is written after the exception was "
     "handled (% try, include_error_handler or error_handler)."
 )
@@ -53,14 +54,15 @@ ASSUMPTIONS = [
     "(a raise in a creation function must leave no entry), stored values are checked through the output of later hits",
     "format_exceptions / error_handler-returns-False are run at every crash point only for programs of weight<=WF: _render_error runs after every "
     "finally clause has run and replaces the buffer stack, so it cannot depend on where the exception came from (html_error_template costs 8 ms per render)",
-    "two raise kinds: Boom(Exception) everywhere; BoomBase(BaseException, constructor needs arguments) at every probe of the F1 programs, one per render, "
+    "two raise kinds: Boom(Exception) everywhere; BoomBase(BaseException, constructor needs arguments) at every probe of the programs of weight<=WB1 and of those of weight<=WB2 "
+    "that contain a % try or an <%include> (the only except sites inside a render), one per render, "
     "under none / render_context / error_handler returning False / include_error_handler True and False - nothing in a render may catch it; <%block>, <%page> flags, namespace-call "
     "spellings and expression filters are not in the grammar (they emit the same try/finally sites as nested/top-level defs and <%call>)",
     "the design's bound W=5/7 over the full flag set is infeasible (1.1e6 programs at modifier-weight 5): the bounds reported are what is enumerated completely",
 ]
 BOUNDS = {
-    "quick": {"W1_modifier_weight": 3, "W2_nodes_all_flags": 2, "W2_root_body": "one statement", "WT_wrapped_nodes": 2, "WT_flags": "<=1 per def", "WP_pairs": 2, "WF_error_page_all_points": 2, "BaseException_kind": "every probe of the F1 programs", "for_iterations": 2},
-    "thorough": {"W1_modifier_weight": 4, "W2_nodes_all_flags": 2, "W3_nodes_single_flags": 3, "WT_wrapped_nodes": 2, "WT_flags": "every subset", "WP_pairs": 3, "WF_error_page_all_points": 3, "BaseException_kind": "every probe of the F1 programs", "for_iterations": 2},
+    "quick": {"W1_modifier_weight": 3, "W2_nodes_all_flags": 2, "W2_root_body": "one statement", "WT_wrapped_nodes": 2, "WT_flags": "<=1 per def", "WP_pairs": 2, "WF_error_page_all_points": 2, "WB1_base_kind_all": 2, "WB2_base_kind_try_or_include": 3, "for_iterations": 2},
+    "thorough": {"W1_modifier_weight": 4, "W2_nodes_all_flags": 2, "W3_nodes_single_flags": 3, "WT_wrapped_nodes": 2, "WT_flags": "every subset", "WP_pairs": 3, "WF_error_page_all_points": 3, "WB1_base_kind_all": 3, "WB2_base_kind_try_or_include": 4, "for_iterations": 2},
 }
 LEVEL_TEXT = (
     "Every program of the stated grammar within the bounds is rendered by the real code once per crash point and handler; output after the "
@@ -105,6 +107,19 @@ def modweight(x):
 
 F3_KINDS = ("text", "try", "for", "call", "inc", "inh", "py")  # F3 and the quick FT source: without the leaves cb, textf and plain loops
 _GRAMMARS = {}
+
+
+def base_kind_applies(skel, b):
+    """which programs get the BaseException-only raise kind at every probe: all up to WB1; up to WB2 those with an
+    `except` site of their own (% try, <%include> with its handler) - elsewhere only finally clauses are passed, which
+    do not depend on the exception class"""
+    mw = modweight(skel)
+    if mw <= b["WB1_base_kind_all"]:
+        return True
+    if mw <= b["WB2_base_kind_try_or_include"]:
+        ks = ir.kinds_of(skel)
+        return "try" in ks or "inc" in ks
+    return False
 
 
 def grammar(fam):
@@ -414,6 +429,7 @@ class Runner:
                     # the handler is reached: with a handler that returns False the case must behave as without handler
                     cases.append((targets, "F", base_r[0], base_r[1]))
         worlds = {}
+        fe_seen = set()
         for ci, (targets, ieh, r1, r2) in enumerate(cases):
             st.states += 1
             nt = False
@@ -426,8 +442,12 @@ class Runner:
             for mode in modes:
                 if mode in ("fe", "ehf") and not (fe_all or r1["base"]):
                     continue
-                if mode in ("feb", "ferc") and not (fe_all and len(targets) == 1):
-                    continue
+                if mode in ("feb", "ferc"):
+                    # bytes / caller's Context variants of the error page: one crash point per distinct construct path and probe kind
+                    k = (mode, ieh, tuple(r1["inside"][-1]), r1["pkinds"][-1])
+                    if not (fe_all and len(targets) == 1) or k in fe_seen:
+                        continue
+                    fe_seen.add(k)
                 wk = (WORLD_OF.get(mode, mode), ieh)
                 w = worlds.get(wk)
                 if w is None:
@@ -489,7 +509,7 @@ def run_job(job):
         run = Runner(st, job["seed"])
         for idx in range(job["shard"], len(sk), job["nshards"]):
             s = sk[idx]
-            run.program(s, modweight(s) <= b["WP_pairs"], modweight(s) <= b["WF_error_page_all_points"], job["fam"] == "F1")
+            run.program(s, modweight(s) <= b["WP_pairs"], modweight(s) <= b["WF_error_page_all_points"], base_kind_applies(s, b))
     finally:
         st.extra["cpu_s"] = round(time.process_time() - t0, 2)
         st.extra["worker_wall_s"] = round(time.time() - w0, 2)
